@@ -23,6 +23,12 @@ pub fn is_on() -> bool {
     ON.with(|c| c.get())
 }
 
+/// `VERIF_TRACE=1` (debugging aid for `replay` / `show`): print every tracing event of the subject to stderr.
+fn trace_all() -> bool {
+    static T: std::sync::OnceLock<bool> = std::sync::OnceLock::new();
+    *T.get_or_init(|| std::env::var("VERIF_TRACE").is_ok())
+}
+
 pub fn take() -> BTreeMap<&'static str, u64> {
     COUNTS.with(|c| std::mem::take(&mut *c.borrow_mut()))
 }
@@ -45,14 +51,14 @@ struct Probe;
 
 impl Subscriber for Probe {
     fn register_callsite(&self, meta: &'static Metadata<'static>) -> Interest {
-        if *meta.level() <= Level::DEBUG && meta.target().starts_with("resolvo") {
+        if (trace_all() || *meta.level() <= Level::DEBUG) && meta.target().starts_with("resolvo") {
             Interest::sometimes()
         } else {
             Interest::never()
         }
     }
     fn enabled(&self, meta: &Metadata<'_>) -> bool {
-        is_on() && *meta.level() <= Level::DEBUG && meta.is_event()
+        (trace_all() && meta.is_event()) || (is_on() && *meta.level() <= Level::DEBUG && meta.is_event())
     }
     fn new_span(&self, _: &Attributes<'_>) -> Id {
         Id::from_u64(1)
@@ -63,6 +69,12 @@ impl Subscriber for Probe {
         let mut m = Msg(String::new());
         event.record(&mut m);
         let s = m.0.as_str();
+        if trace_all() {
+            eprintln!("[{}] {s}", event.metadata().level());
+            if !is_on() {
+                return;
+            }
+        }
         if s.starts_with("│├ Learnt disjunction") {
             bump("learnt_clause");
         } else if let Some(rest) = s.strip_prefix("│└ Backtracked from ") {
